@@ -21,7 +21,12 @@ What is proved:
   `onclose_exactly_once_at_completion` — for every interleaving of any number of `Close()` callers, the reader and
   `AddOnClose` calls.
 
-Not modelled (hence partial): OS-level blocking in socket reads/writes, DTLS handshakes and TLS; the bound on real time.
+* `close_never_waits_for_writer`, `close_unblocks_stalled_write`, `locked_close_deadlocks` — a frame write blocked in
+  the transport (peer stopped reading): `Close` does not take the lock the writer holds (fact read from the source), so
+  it returns and the writer is released; would it take the lock, no schedule ever ends either of them.
+  (That the blocked write ignores the request context is finding F26, `Findings/C09.lean`.)
+
+Not modelled (hence partial): OS-level blocking in socket reads, DTLS handshakes and TLS; the bound on real time.
 -/
 namespace CoapVerif.Props.C09
 open CoapVerif CoapVerif.Model.Lifecycle CoapVerif.Generated.BlockingWaits
@@ -251,11 +256,51 @@ theorem onclose_exactly_once_at_completion (sched : List Step) (h : (run {} sche
 example : (run {} [.addOnClose 1, .addOnClose 2, .close, .close, .readerSeesClose, .close, .pop, .runOne, .runOne, .runOne, .closeDone, .close]).ran = [1, 2] := by decide
 example : (run {} [.addOnClose 1, .close, .readerSeesClose, .pop, .runOne, .runOne, .closeDone]).doneClosed = 1 := by decide
 
+/-! ### a frame write blocked in the transport -/
+
+/-- fact read from `net/conn.go` on every run: `Close` closes the socket without first taking the write lock -/
+theorem close_never_waits_for_writer : closeTakesWriteLock = false := by decide
+
+/-- **Close is safe and effective while a write is stalled**: whatever happened before, one `Close()` returns and the
+    next time the blocked writer is scheduled it leaves `Write` — for every history of earlier events. -/
+theorem close_unblocks_stalled_write (arms : Bool) (s : WState) (evs : List WEv) :
+    let s' := wrun closeTakesWriteLock arms s (evs ++ [.callClose, .sched])
+    s'.closeReturned = true ∧ s'.writerBlocked = false := by
+  simp only [wrun, List.foldl_append, List.foldl_cons, List.foldl_nil, close_never_waits_for_writer]
+  simp [wstep]
+
+/-- If `Close` took the writer's lock, a stalled writer and `Close` would wait for each other for ever: no sequence of
+    close calls and scheduling changes anything (the request context cannot help either unless a deadline is armed). -/
+theorem locked_close_deadlocks (evs : List WEv) (s : WState) (hb : s.writerBlocked = true) (hs : s.socketClosed = false) :
+    let s' := wrun true false s evs
+    s'.writerBlocked = true ∧ s'.socketClosed = false ∧ s'.closeReturned = s.closeReturned := by
+  induction evs generalizing s with
+  | nil => exact ⟨hb, hs, rfl⟩
+  | cons e es ih =>
+    simp only [wrun, List.foldl_cons]
+    cases e with
+    | callClose =>
+      have : wstep true false s .callClose = s := by simp [wstep, hb]
+      rw [this]; exact ih s hb hs
+    | sched =>
+      have : wstep true false s .sched = s := by simp [wstep, hs]
+      rw [this]; exact ih s hb hs
+    | ctxEnds =>
+      have h := ih (wstep true false s .ctxEnds) (by simp [wstep, hb]) (by simp [wstep, hs])
+      simpa [wstep, wrun] using h
+
+/-- Non-vacuity: the stalled writer, two racing Close calls, then the writer runs. -/
+example : wrun closeTakesWriteLock writeArmsDeadline {} [.callClose, .callClose, .sched]
+    = { writerBlocked := false, socketClosed := true, ctxDone := false, closeReturned := true } := by decide
+
 end CoapVerif.Props.C09
 
 section Audit
 open CoapVerif.Props.C09
 #print axioms waits_cover_ctx_and_conn
+#print axioms close_never_waits_for_writer
+#print axioms close_unblocks_stalled_write
+#print axioms locked_close_deadlocks
 #print axioms covered_fires
 #print axioms returns_after_cancel
 #print axioms receive_wait_fires
